@@ -114,3 +114,41 @@ func VerifC01Stmt() {
 	// a following statement sees the same globals on both sides
 	p.Step(blk(nm("x")), true, "next-statement")
 }
+
+// VerifC01Logic: boolean structure over comparisons of operands of every scalar kind, floats
+// (NaN, infinities) included: !(a < b), (a < b) && !(a >= b), in value and condition position.
+func VerifC01Logic() {
+	p := NewPair()
+	g := p.G
+	rels := [...]string{"<", "<=", ">", ">=", "==", "!="}
+	cmp := func() node.Type { return bin(rels[vrt.Choice("rel", len(rels))], g.poly(0), g.poly(1)) }
+	var e node.Type
+	switch vrt.Choice("shape", 4) {
+	case 0:
+		e = node.UnOp{Op: "!", Target: cmp()}
+	case 1:
+		e = bin("&&", cmp(), node.UnOp{Op: "!", Target: cmp()})
+	case 2:
+		e = blk(asg("t", cmp()), node.UnOp{Op: "!", Target: nm("t")})
+	default:
+		e = bin("==", node.UnOp{Op: "!", Target: cmp()}, node.Bool(vrt.Bool("blit")))
+	}
+	var prog node.Type = e
+	used := true
+	switch vrt.Choice("position", 3) {
+	case 1:
+		if _, isBlk := e.(node.Block); !isBlk {
+			prog = node.IfElse{Condition: e, TrueCase: ilit(1), FalseCase: ilit(2)}
+		}
+	case 2:
+		if _, isBlk := e.(node.Block); !isBlk {
+			prog = blk(asg("f", fn(e)), call("f"))
+		}
+	}
+	vrt.Note("program", Src(prog))
+	if p.Step(prog, used, "program") {
+		vrt.Cover("runtime-error")
+	} else {
+		vrt.Cover("value")
+	}
+}
